@@ -613,5 +613,35 @@ func TestExh_C10(t *testing.T) {
 			}
 		}
 	}
+	// two directed cases with a stall of 2.6 s inside one frame (between header and payload, and
+	// in the middle of a 64k payload), run side by side: nothing is lost, so everything has to
+	// arrive and nothing may fail, however long the sender takes for a frame
+	var swg sync.WaitGroup
+	var smu sync.Mutex
+	sfail := ""
+	for i, where := range []string{"before_payload", "mid_payload"} {
+		c := C10Case{QLen: 4, IDs: []uint32{uint32(11 + i)},
+			Streams: []C10Stream{{Conn: 0, Dir: i, Writers: [][]int{{5, 65536, 17, 4096}}}, {Conn: 0, Dir: 1 - i, Writers: [][]int{{3, 9}}}},
+			Stalls:  []C10Stall{{Side: i, Frame: 1, Where: where, Ms: 2600}}}
+		swg.Add(1)
+		go func() {
+			defer swg.Done()
+			raw := ev.Snapshot(c)
+			o := runC10(c)
+			rec.Record(raw, o)
+			if o.Fail != "" {
+				smu.Lock()
+				sfail = fmt.Sprintf("%s\ncase: %s", o.Fail, raw)
+				smu.Unlock()
+			}
+		}()
+		n++
+	}
+	swg.Wait()
+	if sfail != "" {
+		exhFailed.Store(true)
+		t.Fatalf("C10 (long stall inside a frame): %s", sfail)
+	}
+	rec.SetExtra("directed_long_stalls", "2 cases: the sending trunk pauses 2.6 s between header and payload, and in the middle of a 64k payload")
 	rec.SetExtra("exhaustive_queue_lengths", fmt.Sprintf("bursts of qlen, qlen-1 and qlen/2 unread frames towards either end for qlen in {1, 2, 3, 255, 256, 257, 300, 512, 1024, 4096}: %d cases", n))
 }
